@@ -34,6 +34,15 @@ def targetFull : Target → String
   | .enum full _ _ => full
   | .none => ""
 
+/-- the descriptor the element of the field refers to -/
+def itemTarget (f : FieldD) : Target :=
+  match f.card with
+  | .map =>
+    match f.mapVal with
+    | some (_, vt, _) => vt
+    | none => .none
+  | _ => f.target
+
 /-- the walk of `newPropSet` along one proto path: the last field, or an error -/
 def resolvePath (ds : DescSet) (m : Msg) : List Int → Outcome (Option FieldD)
   | [] => .ok none
